@@ -113,21 +113,10 @@ pub fn worker_main(args: &[String]) -> i32 {
     crate::init_process();
     let base = workdir_base();
     let out = std::io::stdout();
-    // watchdog: a run that exceeds the wall-clock backstop kills the worker
+    // watchdog: a run that exceeds the wall-clock backstop, or whose logical clock stands still, kills the worker
     let current = std::sync::Arc::new(std::sync::atomic::AtomicU64::new(u64::MAX));
     let started = std::sync::Arc::new(std::sync::Mutex::new(Instant::now()));
-    {
-        let current = current.clone();
-        let started = started.clone();
-        std::thread::spawn(move || loop {
-            std::thread::sleep(std::time::Duration::from_secs(2));
-            let i = current.load(std::sync::atomic::Ordering::SeqCst);
-            if i != u64::MAX && started.lock().unwrap().elapsed().as_secs() > 120 {
-                println!("H {i}");
-                std::process::exit(3);
-            }
-        });
-    }
+    spawn_watchdog(current.clone(), started.clone());
     let mut i = start;
     while i < end {
         if i % stride == offset {
@@ -164,6 +153,33 @@ pub fn worker_main(args: &[String]) -> i32 {
     0
 }
 
+/// Backstop for loops that never poll: 120 s of wall-clock per run, or 20 s without a single tick
+/// of the logical clock (cancel polls, progress calls, op boundaries, intercepted syscalls).
+fn spawn_watchdog(current: std::sync::Arc<std::sync::atomic::AtomicU64>, started: std::sync::Arc<std::sync::Mutex<Instant>>) {
+    std::thread::spawn(move || {
+        let mut last_ticks = u64::MAX;
+        let mut last_change = Instant::now();
+        loop {
+            std::thread::sleep(std::time::Duration::from_millis(500));
+            let i = current.load(std::sync::atomic::Ordering::SeqCst);
+            if i == u64::MAX {
+                last_ticks = u64::MAX;
+                last_change = Instant::now();
+                continue;
+            }
+            let ticks = crate::ctx::active().map_or(0, |c| c.ticks.load(std::sync::atomic::Ordering::SeqCst));
+            if ticks != last_ticks {
+                last_ticks = ticks;
+                last_change = Instant::now();
+            }
+            if started.lock().unwrap().elapsed().as_secs() > 120 || last_change.elapsed().as_secs() > 20 {
+                println!("H {i}");
+                std::process::exit(3);
+            }
+        }
+    });
+}
+
 #[derive(Default)]
 pub struct Agg {
     pub evaluations: u64,
@@ -198,6 +214,7 @@ pub struct Agg {
     pub nondeterministic: u64,
     pub violations: Vec<(u64, u64, Violation)>,
     pub died: Vec<(u64, String)>,
+    pub trace_by_run: BTreeMap<u64, u64>,
 }
 
 impl Agg {
@@ -232,6 +249,7 @@ impl Agg {
         self.shapes.extend(s.shape_hashes.iter().copied());
         self.nontrivial.extend(s.nontrivial.iter().copied());
         self.traces.insert(o.trace_hash);
+        self.trace_by_run.insert(i, o.trace_hash);
         if let Some(u) = &o.unevaluable {
             self.unevaluable += 1;
             let key: String = u.chars().take(60).collect();
@@ -252,9 +270,12 @@ pub fn run_batch(prop: &str, tier: &str, vseed: u64, n: u64, workers: u64) -> Ag
     let mut agg = Agg::default();
     let (tx, rx) = std::sync::mpsc::channel::<(u64, String)>();
     let mut handles = Vec::new();
+    // once plenty of violations are in, the verdict is settled: stop the batch early
+    let stop = std::sync::Arc::new(std::sync::atomic::AtomicBool::new(false));
     for w in 0..workers {
         let exe = exe.clone();
         let tx = tx.clone();
+        let stop = stop.clone();
         let prop = prop.to_string();
         let tier = tier.to_string();
         handles.push(std::thread::spawn(move || {
@@ -271,6 +292,11 @@ pub fn run_batch(prop: &str, tier: &str, vseed: u64, n: u64, workers: u64) -> Ag
                 let mut last_done: Option<u64> = None;
                 for line in rd.lines() {
                     let Ok(line) = line else { break };
+                    if stop.load(std::sync::atomic::Ordering::SeqCst) {
+                        let _ = child.kill();
+                        let _ = child.wait();
+                        return;
+                    }
                     if let Some(r) = line.strip_prefix("S ") {
                         last_started = r.trim().parse().ok();
                     } else if let Some(r) = line.strip_prefix("O ") {
@@ -281,7 +307,7 @@ pub fn run_batch(prop: &str, tier: &str, vseed: u64, n: u64, workers: u64) -> Ag
                     }
                 }
                 let status = child.wait().expect("wait worker");
-                if status.success() {
+                if status.success() || stop.load(std::sync::atomic::Ordering::SeqCst) {
                     break;
                 }
                 if status.code() == Some(2) {
@@ -322,7 +348,10 @@ pub fn run_batch(prop: &str, tier: &str, vseed: u64, n: u64, workers: u64) -> Ag
             continue;
         }
         if let Some(i) = v.get("hang") {
-            agg.died.push((i.as_u64().unwrap(), "wall-clock watchdog (120 s)".to_string()));
+            agg.died.push((i.as_u64().unwrap(), "watchdog: 120 s of wall-clock or 20 s without a tick of the logical clock".to_string()));
+            if agg.violations.len() + agg.died.len() >= 40 {
+                stop.store(true, std::sync::atomic::Ordering::SeqCst);
+            }
             continue;
         }
         let o: Outcome = serde_json::from_value(v["outcome"].clone()).unwrap();
@@ -333,6 +362,9 @@ pub fn run_batch(prop: &str, tier: &str, vseed: u64, n: u64, workers: u64) -> Ag
             agg.nondeterministic += 1;
         }
         agg.add(v["i"].as_u64().unwrap(), v["wall"].as_f64().unwrap(), &o);
+        if agg.violations.len() + agg.died.len() >= 40 {
+            stop.store(true, std::sync::atomic::Ordering::SeqCst);
+        }
     }
     for h in handles {
         let _ = h.join();
@@ -368,6 +400,9 @@ pub fn exec_plan_main(path: &str) -> i32 {
         }
     };
     let base = workdir_base();
+    let current = std::sync::Arc::new(std::sync::atomic::AtomicU64::new(0));
+    let started = std::sync::Arc::new(std::sync::Mutex::new(Instant::now()));
+    spawn_watchdog(current, started);
     let o = run_plan(&plan, &base.join("run"));
     let _ = std::fs::remove_dir_all(&base);
     println!("O {}", serde_json::to_string(&o).unwrap());
@@ -742,5 +777,37 @@ pub fn replay_main(path: &str) -> i32 {
                 0
             }
         },
+    }
+}
+
+
+// ------------------------------------------------------------------ determinism
+
+/// `arroy-sim determinism [runs]`: every engine, each seed executed in two batches with different
+/// worker counts (hence different processes, orders and address spaces); trace hashes must agree.
+pub fn determinism_main(n: u64) -> i32 {
+    let vseed = verif_seed();
+    let mut bad = 0;
+    for prop in ["C01", "C14", "C13", "C08", "C09", "C10", "C17", "C16"] {
+        let n = if prop == "C10" { n / 20 + 4 } else { n };
+        let a = run_batch(prop, "quick", vseed, n, 16);
+        let b = run_batch(prop, "quick", vseed, n, 5);
+        let mut diff = 0;
+        for (i, h) in &a.trace_by_run {
+            if b.trace_by_run.get(i) != Some(h) {
+                diff += 1;
+                if diff <= 3 {
+                    println!("  run {i} of {prop}: trace {h:x} vs {:x?}", b.trace_by_run.get(i));
+                }
+            }
+        }
+        println!("determinism {prop}: {} seeds x 2 executions (16 and 5 worker processes), {} mismatches, {} distinct traces, in-process re-checks {}+{} mismatching {}", a.trace_by_run.len(), diff, a.traces.len(), a.rechecked, b.rechecked, a.nondeterministic + b.nondeterministic);
+        bad += diff + a.nondeterministic as usize + b.nondeterministic as usize;
+    }
+    if bad > 0 {
+        eprintln!("HARNESS-ERROR nondeterminism detected");
+        2
+    } else {
+        0
     }
 }
